@@ -164,6 +164,25 @@ inline std::string o_conv(const std::string& args) {
   if (rbs.empty() || !rbs[0].refln_loop) return "no refln loop";
   gemmi::ReflnBlock& rb = rbs[0];
   gemmi::cif::Loop& loop = *rb.refln_loop;
+  if (!rb.is_unmerged() && !loop.tags.empty() && loop.tags[0].compare(0, 7, "_refln.") == 0) {
+    // get_refln_block(): the same block is found by its labels (all labels of the loop) and by name; a label the
+    // loop does not have is refused
+    std::vector<std::string> labels;
+    for (const std::string& t : loop.tags) labels.push_back(t.substr(7));
+    gemmi::cif::Document d2 = gemmi::cif::read_string(text);
+    gemmi::ReflnBlock g = gemmi::get_refln_block(std::move(d2.blocks), labels, rb.block.name.c_str());
+    if (!g.ok() || g.block.name != rb.block.name) return "get_refln_block: wrong block";
+    if (!g.default_loop || g.default_loop->tags != loop.tags || g.default_loop->values != loop.values)
+      return "get_refln_block: reflection loop differs from as_refln_blocks";
+    if (g.spacegroup != rb.spacegroup) return "get_refln_block: space group differs";
+    if (g.cell.a != rb.cell.a || g.cell.b != rb.cell.b || g.cell.c != rb.cell.c || g.cell.alpha != rb.cell.alpha ||
+        g.cell.beta != rb.cell.beta || g.cell.gamma != rb.cell.gamma) return "get_refln_block: cell differs";
+    labels.push_back("no_such_label_");
+    gemmi::cif::Document d3 = gemmi::cif::read_string(text);
+    bool threw = false;
+    try { gemmi::get_refln_block(std::move(d3.blocks), labels); } catch (std::exception&) { threw = true; }
+    if (!threw) return "get_refln_block: accepts a label the loop does not have";
+  }
   // expected rows
   size_t nc = m.columns.size();
   std::vector<int> src;   // column index per loop column (-1 for $. $?)
